@@ -13,7 +13,7 @@ DbOf(ts, a) ==
 
 Agree(x) ==
   LET S == EvalQ(x.orig, [db |-> DbOf(x.tables, x.asg), res |-> <<>>, defdb |-> x.defdb, ctes |-> [n \in {} |-> {}]])
-  IN \E r \in S : IF r.ord THEN (SameBag(r.rows, x.rows) /\ \E r2 \in S : r2.rows = x.rows \/ TRUE) ELSE SameBag(r.rows, x.rows)
+  IN \E r \in S : IF r.ord THEN SameOrdered([rows |-> x.rows], r) ELSE SameBag(r.rows, x.rows)
 
 Init == tid \in 1..Len(Obs) /\ done = FALSE
 Judge == /\ ~done /\ done' = TRUE /\ UNCHANGED tid
